@@ -255,6 +255,42 @@ Section Calls.
   Qed.
 
 
+  (** both / un-both with a numeric subscript *)
+  Lemma REL_both_loop h h' (body body' : rt -> res) a :
+    (forall x y, vsim x y -> hid x = h -> hid y = h' -> REL h h' (body x) (body' y)) ->
+    forall k s s', vsim s s' -> hid s = h -> hid s' = h' ->
+    REL h h' (both_loop body a k s) (both_loop body' a k s').
+  Proof.
+    intros Hb. induction k as [|k IHk]; intros s s' V Ha Hb'; cbn [both_loop].
+    - apply REL_ok; auto.
+    - destruct k as [|k'].
+      + apply Hb; auto.
+      + pose proof V as (E1 & E2 & E3 & E4). unfold need. rewrite <- E1.
+        destruct (negb (a <=? length (stk s))); [apply REL_err; auto|].
+        apply REL_bind.
+        * apply IHk; auto. repeat split; cbn [set_stk stk und fills fbs]; auto.
+        * intros x y Vxy Hx Hy. apply Hb; auto.
+          destruct Vxy as (G1 & G2 & G3 & G4). repeat split; cbn [set_stk stk und fills fbs]; auto; congruence.
+  Qed.
+
+  Lemma REL_unboth_loop h h' (body body' : rt -> res) o :
+    (forall x y, vsim x y -> hid x = h -> hid y = h' -> REL h h' (body x) (body' y)) ->
+    forall k s s', vsim s s' -> hid s = h -> hid s' = h' ->
+    REL h h' (unboth_loop body o k s) (unboth_loop body' o k s').
+  Proof.
+    intros Hb. induction k as [|k IHk]; intros s s' V Ha Hb'; cbn [unboth_loop].
+    - apply REL_ok; auto.
+    - destruct k as [|k'].
+      + apply Hb; auto.
+      + apply REL_bind; [apply Hb; auto|].
+        intros x y Vxy Hx Hy. pose proof Vxy as (G1 & G2 & G3 & G4). unfold need. rewrite <- G1.
+        destruct (negb (o <=? length (stk x))); [apply REL_err; auto|].
+        apply REL_bind.
+        * apply IHk; auto. repeat split; cbn [set_stk stk und fills fbs]; auto.
+        * intros x2 y2 V2 Hx2 Hy2. apply REL_ok; auto.
+          destruct V2 as (J1 & J2 & J3 & J4). repeat split; cbn [set_stk stk und fills fbs]; auto; congruence.
+  Qed.
+
   Lemma REL_without_fill (body body' : rt -> res) a b :
     vsim a b ->
     (forall a1 b1, vsim a1 b1 -> novis a1 -> stk a1 = stk a -> hid a1 = (fills a, length (fills a) :: fbs a, depth a) ->
@@ -414,6 +450,14 @@ Section Calls.
                 apply REL_iter_exec_nn; auto; intros a b Vab Ha Hb; rewrite <- Ha, <- Hb;
                 apply REL_without_fill; auto; intros a1 b1 V1 N1 _ _ _;
                 apply (IH_use _ _ IH); auto).
+      all: try (match goal with |- REL _ _ (if negb (Nat.eqb ?r 0) then Unk else _) _ =>
+                  destruct (negb (Nat.eqb r 0)); [exact I|] end;
+                norm E1 E2;
+                try (match goal with |- REL _ _ (if ?c then _ else _) _ => destruct c; [apply REL_err; auto|] end);
+                first [apply REL_both_loop | apply REL_unboth_loop]; auto; intros a b Vab Ha Hb;
+                apply (IH_use _ _ IH); auto;
+                intros Hv; cbn [sets_fill] in Hv; rewrite ?orb_false_r in Hv;
+                eapply novis_hid; [exact Ha | auto]).
       all: try (norm E1 E2; rewrite ?Efc; auto_rel IH Hn; fail).
       (* fill *)
       destruct (so sg1 =? 0); [exact I|]. auto_rel IH Hn.
